@@ -5,6 +5,7 @@ package main
 import (
 	"fmt"
 	"go/token"
+	"go/types"
 	"strings"
 
 	"golang.org/x/tools/go/ssa"
@@ -428,6 +429,46 @@ func freshAfterHandoff(c *Ctx, f *ssa.Function, key string, isHandoff func(ssa.I
 			handoffs = append(handoffs, in)
 		}
 	})
+	// what is handed off is storage whose reuse this rule can vouch for: a slice of the buffer the read just filled
+	// (checked below), or a copy made on the spot; a slice of any other long-lived block is not covered and is reported
+	for _, h := range handoffs {
+		ci := h.(ssa.CallInstruction)
+		args := ci.Common().Args
+		var chunk ssa.Value
+		for _, a := range args {
+			if _, isSl := a.Type().Underlying().(*types.Slice); isSl {
+				chunk = a
+			}
+		}
+		if chunk == nil {
+			continue
+		}
+		okRoot := true
+		why := ""
+		for _, l := range origins(chunk, originOpts{throughSlice: true}) {
+			root := strip(l.V)
+			if root == strip(buf) {
+				continue
+			}
+			sameAsBuf := false
+			for _, lb := range origins(buf, originOpts{throughSlice: true}) {
+				if strip(lb.V) == root {
+					sameAsBuf = true
+				}
+			}
+			if sameAsBuf || isFreshBuffer(root) {
+				continue
+			}
+			if call, _ := callOf(root); call != nil {
+				id := calleeID(&call.Call)
+				if id == "bytes.Clone" || id == "slices.Clone" || (id == "builtin append" && isNilConst(call.Call.Args[0])) {
+					continue
+				}
+			}
+			okRoot, why = false, root.String()
+		}
+		c.check(okRoot, key+"/handoff-is-read-buffer-or-copy", c.ipos(h), "what is queued is a slice of the buffer just read into, or a fresh copy", "what is queued is a slice of another long-lived block ("+why+"): nothing shows that block is not written again while the slice waits in the queue")
+	}
 	isRead := func(x ssa.Instruction) bool { return x == ssa.Instruction(read) }
 	// between: some hand-off lies on a path from position (b,idx) to the terminator of block to, not passing the read
 	between := func(b *ssa.BasicBlock, idx int, to *ssa.BasicBlock) bool {
